@@ -573,7 +573,103 @@ fn stream_containers(i: &Input) -> Outcome {
     eq("DryocStream::pull with locked key and header, cloned read-only locked ciphertext", m, &p)
 }
 
+fn conversions_of_array<const N: usize>(b: &[u8]) -> Outcome {
+    let a: [u8; N] = b.try_into().unwrap();
+    let keep = a;
+    eq(&format!("HeapByteArray<{}>::from(&[u8; N])", N), b, HeapByteArray::<N>::from(&a).as_slice())?;
+    eq(&format!("HeapByteArray<{}>::from([u8; N]) (by value)", N), b, HeapByteArray::<N>::from(a).as_slice())?;
+    let into: HeapByteArray<N> = a.into();
+    eq(&format!("[u8; {}]::into() -> HeapByteArray (by value)", N), b, into.as_array())?;
+    eq("the caller's array after the by-value conversion (arrays are Copy)", &keep, &a)?;
+    match HeapByteArray::<N>::try_from(b) {
+        Ok(h) => eq(&format!("HeapByteArray<{}>::try_from(&[u8])", N), b, h.as_slice())?,
+        Err(e) => return fail("Ok", format!("Err({})", e), "HeapByteArray::try_from(&[u8]) refused a slice of exactly N bytes"),
+    }
+    let st = StackByteArray::<N>::from(a);
+    eq(&format!("StackByteArray<{}>::from([u8; N])", N), b, st.as_slice())?;
+    eq(&format!("HeapByteArray<{}>::from(StackByteArray)", N), b, HeapByteArray::<N>::from(st.clone()).as_slice())?;
+    let h2: HeapByteArray<N> = st.into();
+    eq(&format!("StackByteArray<{}>::into() -> HeapByteArray", N), b, h2.as_slice())?;
+    // by value, then locked / read-only locked / unlocked again
+    let l = granted(HeapByteArray::<N>::from(a).mlock(), "HeapByteArray::mlock")?;
+    eq(&format!("HeapByteArray<{}>::from([u8; N]).mlock()", N), b, l.as_slice())?;
+    let r = must_ok(l.mprotect_readonly(), "mprotect_readonly")?;
+    eq(&format!("HeapByteArray<{}>::from([u8; N]).mlock().mprotect_readonly()", N), b, r.as_slice())?;
+    // all conversions agree with each other (PartialEq of the containers)
+    if HeapByteArray::<N>::from(a) != HeapByteArray::<N>::from(&a) {
+        return fail("equal", "not equal", format!("HeapByteArray<{}>::from([u8; N]) != HeapByteArray::from(&[u8; N])", N));
+    }
+    Ok(())
+}
+
+/// bytes: every conversion INTO a heap container reproduces the bytes (by reference, by value, from a slice, from a stack
+/// array), also after locking; fixed-length conversions for 8, 16, 24, 32 and 64 bytes.
+fn heap_conversions(i: &Input) -> Outcome {
+    let b = i.get("bytes");
+    eq("HeapBytes::from(&[u8])", b, HeapBytes::from(b).as_slice())?;
+    let hb: HeapBytes = b.into();
+    eq("<&[u8]>::into() -> HeapBytes", b, hb.as_slice())?;
+    eq("HeapBytes::from(&[u8]).mlock()", b, granted(HeapBytes::from(b).mlock(), "HeapBytes::mlock")?.as_slice())?;
+    match b.len() {
+        8 => conversions_of_array::<8>(b),
+        16 => conversions_of_array::<16>(b),
+        24 => conversions_of_array::<24>(b),
+        32 => conversions_of_array::<32>(b),
+        64 => conversions_of_array::<64>(b),
+        _ => Ok(()),
+    }
+}
+
+/// key, ctx, id, m: KDF subkeys and keyed hashes / MACs with the key placed into a heap array through each conversion equal
+/// the stack variant's and libsodium's.
+fn converted_key_containers(i: &Input) -> Outcome {
+    use dryoc::auth::Auth;
+    use dryoc::generichash::GenericHash;
+    use dryoc::kdf::Kdf;
+    let (key, ctxb, id, m) = (i.arr::<32>("key"), i.arr::<8>("ctx"), i.num("id"), i.get("m").to_vec());
+    let want = so::kdf_derive(32, id, &ctxb, &key).expect("32-byte subkey");
+    let stack: Kdf<StackByteArray<32>, StackByteArray<8>> = Kdf::from_parts(key.into(), ctxb.into());
+    eq("Kdf<Stack, Stack> (arrays converted by value)", &want, &must_ok(stack.derive_subkey_to_vec(id), "derive_subkey_to_vec")?)?;
+    let vecs: Kdf<Vec<u8>, Vec<u8>> = Kdf::from_parts(key.to_vec(), ctxb.to_vec());
+    eq("Kdf<Vec, Vec>", &want, &must_ok(vecs.derive_subkey_to_vec(id), "derive_subkey_to_vec")?)?;
+    let by_val: Kdf<HeapByteArray<32>, HeapByteArray<8>> = Kdf::from_parts(key.into(), ctxb.into());
+    eq("Kdf<Heap, Heap> (key and context converted by value: [u8; N].into())", &want, &must_ok(by_val.derive_subkey_to_vec(id), "derive_subkey_to_vec")?)?;
+    let out: HeapByteArray<32> = must_ok(by_val.derive_subkey(id), "Kdf<Heap>::derive_subkey -> Heap")?;
+    eq("Kdf<Heap, Heap> (by value) -> Heap", &want, out.as_slice())?;
+    let by_ref: Kdf<HeapByteArray<32>, HeapByteArray<8>> = Kdf::from_parts((&key).into(), (&ctxb).into());
+    eq("Kdf<Heap, Heap> (converted by reference)", &want, &must_ok(by_ref.derive_subkey_to_vec(id), "derive_subkey_to_vec")?)?;
+    let tried: Kdf<HeapByteArray<32>, HeapByteArray<8>> = Kdf::from_parts(
+        must_ok(HeapByteArray::<32>::try_from(&key[..]), "HeapByteArray::try_from")?,
+        must_ok(HeapByteArray::<8>::try_from(&ctxb[..]), "HeapByteArray::try_from")?,
+    );
+    eq("Kdf<Heap, Heap> (converted from slices)", &want, &must_ok(tried.derive_subkey_to_vec(id), "derive_subkey_to_vec")?)?;
+    let from_stack: Kdf<HeapByteArray<32>, HeapByteArray<8>> =
+        Kdf::from_parts(StackByteArray::<32>::from(key).into(), StackByteArray::<8>::from(ctxb).into());
+    eq("Kdf<Heap, Heap> (converted from stack arrays)", &want, &must_ok(from_stack.derive_subkey_to_vec(id), "derive_subkey_to_vec")?)?;
+    let locked: Kdf<Locked<HeapByteArray<32>>, Locked<HeapByteArray<8>>> = Kdf::from_parts(
+        granted(HeapByteArray::<32>::from(key).mlock(), "mlock")?,
+        granted(HeapByteArray::<8>::from(ctxb).mlock(), "mlock")?,
+    );
+    eq("Kdf<Locked, Locked> (by value, then mlock)", &want, &must_ok(locked.derive_subkey_to_vec(id), "derive_subkey_to_vec")?)?;
+
+    let wanth = so::generichash(32, &m, &key).expect("generichash");
+    let hk: HeapByteArray<32> = key.into();
+    let h: Vec<u8> = must_ok(GenericHash::<32, 32>::hash(&m, Some(&hk)), "GenericHash::hash (heap key, by value)")?;
+    eq("GenericHash::hash (key = [u8; 32].into() heap array)", &wanth, &h)?;
+    let h: Vec<u8> = must_ok(GenericHash::<32, 32>::hash(&m, Some(&HeapByteArray::<32>::from(&key))), "GenericHash::hash (heap key, by reference)")?;
+    eq("GenericHash::hash (key = HeapByteArray::from(&[u8; 32]))", &wanth, &h)?;
+    let h: Vec<u8> = must_ok(GenericHash::<32, 32>::hash(&m, Some(&StackByteArray::<32>::from(key))), "GenericHash::hash (stack key)")?;
+    eq("GenericHash::hash (stack key)", &wanth, &h)?;
+    let h: Vec<u8> = must_ok(GenericHash::<32, 32>::hash(&HeapBytes::from(&m[..]), Some(&key)), "GenericHash::hash (array key, heap input)")?;
+    eq("GenericHash::hash (array key, HeapBytes input)", &wanth, &h)?;
+    let wanta = so::auth(&m, &key);
+    let mac: Vec<u8> = Auth::compute(HeapByteArray::<32>::from(key), &m);
+    eq("Auth::compute (key = HeapByteArray::from([u8; 32]))", &wanta, &mac)
+}
+
 pub const C18: Registry = &[
+    ("heap_conversions", heap_conversions),
+    ("converted_key_containers", converted_key_containers),
     ("clone_containers", clone_containers),
     ("precalc_containers", precalc_containers),
     ("kx_containers", kx_containers),
@@ -597,8 +693,20 @@ pub fn c18(ctx: &mut Ctx) -> Search {
         let b = ctx.rng.bytes(*len);
         ctx.run("clone_containers", Input::new().b("bytes", &b))?;
     }
+    // every conversion into a heap container (8 = KDF context, 16/24/32/64 = MAC, nonce, key, signature lengths)
+    // (own generator state: the inputs of the cases below stay what they were)
+    let mut rng2 = ctx.rng.clone();
+    for len in [8usize, 16, 24, 32, 64].iter().chain(lens.iter()) {
+        let b = rng2.bytes(*len);
+        ctx.run("heap_conversions", Input::new().b("bytes", &b))?;
+    }
     let rounds = if t { 24 } else { 4 };
     for r in 0..rounds {
+        {
+            let (key, c, m) = (rng2.arr::<32>(), rng2.arr::<8>(), rng2.bytes([0usize, 1, 55, 129][r % 4]));
+            let id = [0u64, 1, 1 << 32, u64::MAX][r % 4];
+            ctx.run("converted_key_containers", Input::new().b("key", &key).b("ctx", &c).u("id", id).b("m", &m))?;
+        }
         let (ska, skb) = (ctx.rng.arr::<32>(), ctx.rng.arr::<32>());
         ctx.run("precalc_containers", Input::new().b("ska", &ska).b("skb", &skb))?;
         ctx.run("kx_containers", Input::new().b("sk", &ska).b("peer_sk", &skb))?;
